@@ -92,9 +92,9 @@ type BlobberUpdate struct {
 	NumDelegates  *int
 	// DelegateWallet names another delegate wallet (id) for the blobber.
 	DelegateWallet *string
-	NotAvailable  *bool
-	IsRestricted  *bool
-	URL           *string
+	NotAvailable   *bool
+	IsRestricted   *bool
+	URL            *string
 }
 
 // UpdateBlobberSettings builds update_blobber_settings; the contract accepts it
@@ -535,6 +535,9 @@ type ReadParams struct {
 	// SignedCounter, when set, is the counter the client really signed; the marker then carries Counter with that
 	// signature (a marker altered after signing).
 	SignedCounter *int64
+	// CarriedKey, when set, is the wallet whose public key the marker carries as client_public_key (the client id
+	// stays Client's): with Signer set to the same wallet the marker is consistently signed by a foreign key pair.
+	CarriedKey *sim.Wallet
 }
 
 // ReadRedeem builds read_redeem with a signed read marker.
@@ -563,6 +566,9 @@ func (w *World) ReadRedeem(p ReadParams) *transaction.Transaction {
 	}
 	rm := readMarker{ClientID: p.Client.ID, ClientPublicKey: p.Client.PublicKey, BlobberID: p.Blobber.ID(),
 		AllocationID: p.AllocID, OwnerID: owner, Timestamp: ts, ReadCounter: p.Counter}
+	if p.CarriedKey != nil {
+		rm.ClientPublicKey = p.CarriedKey.PublicKey
+	}
 	signedCtr := rm.ReadCounter
 	if p.SignedCounter != nil {
 		signedCtr = *p.SignedCounter
